@@ -119,12 +119,16 @@ Print Assumptions C12_lookup.
    from as their typed view (so C12_spec and C12_agree apply to them), provided the versions
    survive print-then-read. *)
 Theorem C12_constructed :
-  forall (V : Type) (vparse : str -> option V) (vshow : V -> str) (f : list (list (rel V))),
+  forall (V : Type) (vparse : str -> option V) (vshow : V -> str),
+  vparse [] = None ->                     (* the empty text is no version *)
+  forall (f : list (list (rel V))),
   Forall (Forall (fun r => match r_ver r with Some (_, v) => vparse (vshow v) = Some v | None => True end)) f ->
   exists t, build_field V vshow f = Ok t /\ tree_field V vparse t = Ok f.
 Proof. exact build_field_view. Qed.
 Check C12_constructed :
-  forall (V : Type) (vparse : str -> option V) (vshow : V -> str) (f : list (list (rel V))),
+  forall (V : Type) (vparse : str -> option V) (vshow : V -> str),
+  vparse [] = None ->                     (* the empty text is no version *)
+  forall (f : list (list (rel V))),
   Forall (Forall (fun r => match r_ver r with Some (_, v) => vparse (vshow v) = Some v | None => True end)) f ->
   exists t, build_field V vshow f = Ok t /\ tree_field V vparse t = Ok f.
 Print Assumptions C12_constructed.
@@ -135,6 +139,7 @@ Print Assumptions C12_constructed.
    typed view and C12_spec / C12_agree apply to them. *)
 Theorem C12_set_version :
   forall (V : Type) (vparse : str -> option V) (vshow : V -> str),
+  vparse [] = None ->
   (forall (r : rtree) n vc v,
      is_node r = true -> first_ident r = Some n -> vparse (vshow v) = Some v ->
      tree_rel V vparse (set_version_some V vshow (@constraint_tokens) r vc v) = Ok (mk_rel n (Some (vc, v)))) /\
@@ -142,12 +147,13 @@ Theorem C12_set_version :
      Forall (Forall (fun r => match r_ver r with Some (_, v) => vparse (vshow v) = Some v | None => True end)) f ->
      exists t, sv_field V vshow (@constraint_tokens) f = Ok t /\ tree_field V vparse t = Ok f).
 Proof.
-  intros V vparse vshow. split.
-  - intros r n vc v H1 H2 H3. exact (proj1 (set_version_view V vparse vshow r n vc v H1 H2 H3)).
-  - exact (sv_field_view V vparse vshow).
+  intros V vparse vshow He. split.
+  - intros r n vc v H1 H2 H3. exact (proj1 (set_version_view V vparse vshow He r n vc v H1 H2 H3)).
+  - exact (sv_field_view V vparse vshow He).
 Qed.
 Check C12_set_version :
   forall (V : Type) (vparse : str -> option V) (vshow : V -> str),
+  vparse [] = None ->
   (forall (r : rtree) n vc v,
      is_node r = true -> first_ident r = Some n -> vparse (vshow v) = Some v ->
      tree_rel V vparse (set_version_some V vshow (@constraint_tokens) r vc v) = Ok (mk_rel n (Some (vc, v)))) /\
